@@ -330,4 +330,47 @@ example : MarginLe cexInst 69 := marginLe_of_precomp cexInst 67108864 1 69 ((pre
 example : ReachablePrize cexInst 0 :=
   ⟨[0, 0], _, (run_iff_admitted _ _ _ _ _).2 ⟨by decide, rfl⟩, by decide, by decide⟩
 
+/-! ### the repaired clause, and exactly which tours the margin hides -/
+
+/-- **C05 (OP), repaired clause**: if `_reset` did not subtract the margin (budgets ≥ `L − D j 0`), the mask —
+with its strict `>` — offers every canonical feasible tour, those of length exactly `max_length` included. -/
+theorem run_of_feasible_no_margin (i : Inst) (hd00 : i.D 0 0 = 0) (htri : TriToDepot i) (h0 : MarginLe i 0)
+    {as : List Nat} (hf : Feasible i as) (hc : Canonical as) :
+    ∃ s, Run env i (env.reset i) as s ∧ env.done i s = true :=
+  run_of_feasible_partial i 0 hd00 htri h0 hf (by have := hf.length; omega) hc
+
+/-- **C05 (OP), exact**: with budgets exactly `m` below `L − D j 0` (the code: `m = 1e-6`), a canonical feasible
+tour is a finished mask-confined run IFF it keeps `m` of the budget unused. -/
+theorem run_iff_slack (i : Inst) (m : Int) (hd00 : i.D 0 0 = 0) (htri : TriToDepot i) (hmL : m ≤ i.L)
+    (hle : MarginLe i m) (hge : MarginGe i m) {as : List Nat} (hf : Feasible i as) (hc : Canonical as) :
+    (∃ s, Run env i (env.reset i) as s ∧ env.done i s = true) ↔ tourLen i as ≤ i.L - m := by
+  constructor
+  · rintro ⟨s, hr, _⟩
+    exact tourLen_le_of_run i m hd00 hge hmL hr
+  · intro hs
+    exact run_of_feasible_partial i m hd00 htri hle hf hs hc
+
+/-- **C05 (OP), the hidden set**: the canonical feasible tours the mask does NOT offer are exactly those whose
+remaining slack `L − length` lies in `[0, m)`. -/
+theorem hidden_iff (i : Inst) (m : Int) (hd00 : i.D 0 0 = 0) (htri : TriToDepot i) (hmL : m ≤ i.L)
+    (hle : MarginLe i m) (hge : MarginGe i m) {as : List Nat} (hc : Canonical as) :
+    (Feasible i as ∧ ¬ ∃ s, Run env i (env.reset i) as s ∧ env.done i s = true) ↔
+      (Feasible i as ∧ 0 ≤ slack i as ∧ slack i as < m) := by
+  constructor
+  · rintro ⟨hf, hn⟩
+    have h1 : ¬ tourLen i as ≤ i.L - m := fun h => hn ((run_iff_slack i m hd00 htri hmL hle hge hf hc).mpr h)
+    have h2 := hf.length
+    simp only [slack]
+    exact ⟨hf, by omega, by omega⟩
+  · rintro ⟨hf, _, h2⟩
+    refine ⟨hf, ?_⟩
+    rw [run_iff_slack i m hd00 htri hmL hle hge hf hc]
+    simp only [slack] at h2
+    omega
+
+/-- Non-vacuity: `cexInst` with the margin removed from its budgets offers the tour of length exactly `L`. -/
+example : ∃ s, Run env { cexInst with budget := fun j => if j = 0 then 33554432 else 16777216 }
+    (env.reset cexInst) [1, 0] s ∧ s.done = true :=
+  ⟨_, (run_iff_admitted _ _ _ _ _).2 ⟨by decide, rfl⟩, by decide⟩
+
 end Rl4co.Op
